@@ -1494,10 +1494,12 @@ impl Engine for ReopenEngine {
             let start = rng.range(0, 200);
             out.push(gen_rollback_sweep(rng, start, 140));
         }
-        if !quick {
-            for _ in 0..2 {
-                out.push(gen_many_txns(rng));
-            }
+        // histories longer than the aborted bitmap (2 s each): rollbacks at ids of every magnitude, and a run of rollbacks
+        // across id 8192 — the ids 8192 + k of that run meet the transactions k that created and filled the table
+        for _ in 0..(if quick { 1 } else { 2 }) {
+            out.push(gen_many_txns(rng));
+        }
+        for _ in 0..(if quick { 1 } else { 3 }) {
             let start = 8192 - rng.range(40, 90);
             out.push(gen_rollback_sweep(rng, start, 140));
         }
